@@ -193,10 +193,16 @@ def raw_fp(idnt):
             for k in sorted(idnt._raw_data.keys())}
 
 
-def issue(idnt, steps, options, via_fit, details=False):
+def issue(idnt, steps, options, via_fit, details=False, in_place=False):
     steps, options = copy.deepcopy(steps), copy.deepcopy(options)
     try:
-        if via_fit:
+        if in_place:
+            # the public attributes edited in place, then applied
+            idnt.preprocessing[:] = steps
+            idnt.preprocessing_options.clear()
+            idnt.preprocessing_options.update(options)
+            idnt.apply_preprocessing(ret_details=details)
+        elif via_fit:
             idnt.fit_model(preprocessing=steps,
                            preprocessing_options=options)
         else:
@@ -303,10 +309,25 @@ def run_sequence(rec, rng, cid):
             rec.event("requests asking for preprocessing details")
         applied_before = (copy.deepcopy(idnt.preprocessing),
                           copy.deepcopy(idnt.preprocessing_options))
-        res = issue(idnt, steps, options, via_fit, details)
+        in_place = bool(not via_fit and rng.random() < .2 and
+                        isinstance(idnt.preprocessing, list) and
+                        isinstance(idnt.preprocessing_options, dict))
+        if in_place:
+            rec.event("requests made by editing the curve's attributes in "
+                      "place")
+        res = issue(idnt, steps, options, via_fit, details, in_place)
         hist.append([{"steps": steps, "options": options,
                       "via_fit_model": via_fit, "kind": what,
-                      "ret_details": details}, res])
+                      "ret_details": details,
+                      "attributes_edited_in_place": in_place}, res])
+        # a curve that was never asked for anything reports nothing
+        nf = factory()
+        rec.check(nf.preprocessing == [] and nf.preprocessing_options == {}
+                  and "preprocessing" not in nf.fit_properties,
+                  "new-curve-reports-preprocessing",
+                  "a newly created curve reports the pipeline %r / %r"
+                  % (nf.preprocessing, nf.preprocessing_options),
+                  {"id": cid, "curve": desc, "history": hist})
         case = {"id": cid, "curve": desc, "history": hist}
         rec.evaluated(dg=(desc, hist),
                       nontrivial=prev != (steps, options))
